@@ -83,12 +83,15 @@ func genC40(tier string) (map[string]string, error) {
 			fmt.Fprintf(&p, "\t\tinRange = zzAnd(raw.Cmp(%s) >= 0, raw.Cmp(%s) <= 0)\n\t}\n", mn, mx)
 			return p.String()
 		}
+		// region of the known finding: fewer fractional digits than the scale and the integer part at
+		// the type's maximum / minimum integer part (max/10^scale, |min|/10^scale from the reference)
+		kfRegion := fmt.Sprintf("\tzzKnownFinding(\"C40-fractional-compared-at-parsed-scale\", zzAnd(zzAnd(ps > 0, ps < %d), zzOr(U.Cmp(new(big.Int).Quo(%s, zzPow10(%d))) == 0, U.Cmp(new(big.Int).Quo(new(big.Int).Neg(%s), zzPow10(%d))) == 0)))\n", t.Scale, mx, t.Scale, mn, t.Scale)
 		fmt.Fprintf(&sb, "\n//verif:harness property=C40 mode=int\nfunc ZZ_C40_FixedPointLiteral_%s() {\n", t.Name)
 		sb.WriteString(pre())
 		fmt.Fprintf(&sb, "\tout := zzCatch(func() any {\n\t\treturn CheckFixedPointLiteral(nil, &ast.FixedPointExpression{Negative: neg, UnsignedInteger: new(big.Int).Set(U), Fractional: new(big.Int).Set(F), Scale: uint(ps)}, %sType, nil)\n\t})\n", t.Name)
 		sb.WriteString("\tzzAssert(\"no-crash\", !out.Panicked)\n\tif out.Panicked {\n\t\treturn\n\t}\n")
 		sb.WriteString(oracle())
-		fmt.Fprintf(&sb, "\tzzKnownFinding(\"C40-fractional-compared-at-parsed-scale\", zzAnd(ps > 0, ps < %d))\n", t.Scale)
+		sb.WriteString(kfRegion)
 		sb.WriteString("\tzzAssert(\"accepted-iff-scale-ok-and-in-range\", out.Value.(bool) == zzAnd(scaleOK, inRange))\n}\n")
 
 		// conversion (fixedpoint.New<T>): value*10^scale exactly
@@ -104,7 +107,7 @@ func genC40(tier string) (map[string]string, error) {
 		}
 		sb.WriteString("\tzzAssert(\"no-crash\", !out.Panicked)\n\tif out.Panicked {\n\t\treturn\n\t}\n\tr := out.Value.(zzRes)\n")
 		sb.WriteString(oracle())
-		fmt.Fprintf(&sb, "\tzzKnownFinding(\"C40-fractional-compared-at-parsed-scale\", zzAnd(ps > 0, ps < %d))\n", t.Scale)
+		sb.WriteString(kfRegion)
 		sb.WriteString("\tzzAssert(\"accepted-iff-scale-ok-and-in-range\", (r.err == nil) == zzAnd(scaleOK, inRange))\n")
 		sb.WriteString("\tif r.err == nil && scaleOK {\n\t\tzzAssert(\"denotes-exact-decimal-value\", r.v.Cmp(raw) == 0)\n\t}\n}\n")
 		_ = res{}
